@@ -46,7 +46,7 @@ func ruleC08GetOrCreateOne(cx *Ctx, rule, fnName string) {
 			// the new record's wait group is armed before it is published
 			armed := false
 			for i, e := range o.S.trace {
-				if e.Kind == "Sync" && e.Args[0] == "Add" && i < sfs[0].exitIdx {
+				if e.Kind == "Sync" && e.Args[0] == "Add" && len(sfs) > 0 && i < sfs[0].exitIdx {
 					armed = true
 				}
 			}
